@@ -32,15 +32,16 @@ RULE = (
     "re-supplies missing options.  distinct = sha1(program, plan, history); non-trivial = the injected exception was "
     "actually raised and the evaluation at the boundary failed or a fall-back absorbed it."
 )
-ASSUMPTIONS = ["exception classes: ValueError, KeyError, ZeroDivisionError, custom Exception, a foreign EvaluationError, CacheGetFailure, KeyNotFoundError"]
+ASSUMPTIONS = ["exception classes: ValueError, KeyError, ZeroDivisionError, TypeError, RuntimeError, AttributeError, OSError, custom Exception, a foreign EvaluationError, CacheGetFailure, KeyNotFoundError"]
 FLOORS = {"fault_runs": (1500, 40000), "faults_fired": (1200, 30000), "boundary_failures_checked": (1500, 30000),
           "chains_reaching_injected": (700, 15000), "stores_verified": (1500, 40000), "post_failure_steps_compared": (1500, 40000),
           "missing_then_supplied": (150, 3000), "dangling_reference_cases": (1200, 25000), "dangling_missing_key_reports": (150, 3000)}
 COVER = {"fault_kinds": ["body", "callback", "effect", "pred", "bindfn", "step", "factory", "dompred", "fn"],
-         "fault_classes": ["ValueError", "KeyError", "ZeroDivisionError", "InjectedFault", "EvaluationError", "CacheGetFailure"]}
+         "fault_classes": ["ValueError", "KeyError", "ZeroDivisionError", "InjectedFault", "EvaluationError", "CacheGetFailure", "TypeError", "RuntimeError", "AttributeError", "OSError"]}
 SHARDS_QUICK = 4
 
-CLASSES = ["ValueError", "KeyError", "ZeroDivisionError", "InjectedFault", "EvaluationError", "CacheGetFailure", "KeyNotFoundError"]
+CLASSES = ["ValueError", "KeyError", "ZeroDivisionError", "InjectedFault", "EvaluationError", "CacheGetFailure", "KeyNotFoundError",
+           "TypeError", "RuntimeError", "AttributeError", "OSError"]
 NATIVE = {"KeyNotFoundError", "SwitchError", "CaseWhenError", "ValueError", "TypeError"}
 TRIGGERS = [None, [0], [1]]
 
@@ -146,6 +147,21 @@ def run_plan(ctx, program, history, plan, pids, tag):
                 # "failed evaluation stores nothing" clause says nothing about the rest of this history
                 absorbed_at = n_stores if absorbed_at is None else absorbed_at
                 ctx.count("faults_absorbed_by_fallback")
+                # ... but only a fall-back may absorb it: with always-raising probes the eager reference, given the same
+                # fault plan, says whether the semantics has a fall-back for this failure (coalesce member, default of a
+                # switch / overload whose dispatch fails); if the reference fails, the exception was swallowed
+                if err is None and all(trig is None for _c2, trig in plan.values()):
+                    from ..ref import Ref
+
+                    try:
+                        rexp = Ref(program, faults=dict(plan)).run(o)
+                    except RecursionError:
+                        rexp = None
+                    ctx.count("absorptions_checked_against_reference")
+                    if rexp is not None and rexp[0] == "err":
+                        ctx.violation("raised-exception-swallowed", f"step {step}: {[type(x).__name__ for x in injected]} raised by {sorted(plan)} did not surface: evaluate() gave {short(got)}, "
+                                      f"the reference semantics with the same raising callables fails with {short(rexp)}", Ws)
+                        return
             if not injected and absorbed_at is None:
                 # a failure the eager reference semantics predicts (missing option, unmatched switch / case, value
                 # outside its domain) must surface as a failure, and a predicted value must not turn into one
